@@ -491,11 +491,15 @@ class Simulator(EventProducer, SimulatorInterface, Generic[TIME]):
         return self._replication_state
 
     def end_replication(self):
-        self._replication_state = ReplicationState.ENDING
-        self.__worker.wakeup()  # just to be sure
+        if not self.is_initialized() or self.__worker is None:
+            raise DSOLError("cannot end replication: simulator not initialized")
+        if self._replication_state == ReplicationState.ENDED:
+            raise DSOLError("cannot end replication: replication already ended")
         if self._simulator_time < self._replication.end_sim_time:
             print("warning: end_replication called with simtime < runlength")
             self._simulator_time = self._replication.end_sim_time
+        self._replication_state = ReplicationState.ENDING
+        self.__worker.wakeup()  # just to be sure
     
     def set_error_strategy(self, error_strategy: ErrorStrategy,
                            log_level: int=-1):
